@@ -1,5 +1,4 @@
-import Lemmas.Squash
-import Model.Merge
+import Lemmas.SquashRefine
 /-!
 # C02 — Squashing per-segment partial stores equals sequential store execution
 
@@ -12,9 +11,17 @@ merging, in order, the states that partial stores reach when each segment is exe
 The policies' update and merge functions below are the typed reading of store_sum.go, store_min.go,
 store_max.go, store_setsum.go, value_*.go (update) and merge.go (merge).
 
-**Layer B (Lemmas/SquashRefine.lean, `squash_refines…`)** relates the byte-level model that the
-correspondence check ties to the Go code (`Model/Store.lean`, `Model/Policy.lean`, `Model/Merge.lean`:
-`flush`, `merge`, `stripTag`, the text codecs) to these per-key algebras.
+**Layer B (second half of this file; proofs in Lemmas/SquashRefine.lean, Lemmas/Codec.lean)** is about the
+byte-level model that the correspondence check ties to the Go code (`Model/Store.lean`,
+`Model/Policy.lean`, `Model/Merge.lean`: `flush`, `Partial.execBlock`, `merge`, `stdSem`, `stripTag`, the
+text codecs).  `flush_per_key`, `seq_per_key`, `partial_per_key`, `merge_per_key` characterise, for any
+value semantics, one key's content after a block / a list of blocks / a segment on a partial store / a
+`Merge`; `Refine` (three commutation laws per policy) connects them to the per-key algebras of layer A,
+and `model_squash_eq_sequential_*` are the end-to-end statements: the sequential execution of all blocks
+on one store from the empty store (`seqRun`) and the squash of **any cut** of the blocks into segments
+(`squashRun`: fresh partial store per segment, Reset between blocks, save + load, `Merge` in order) hold
+the same value for every key, for `set`, `set_if_not_exists`, `append`, `add`/`min`/`max` over int64 and
+bigint (byte-equal, hence typed-equal) and `set_sum` over int64 and bigint (equal after `stripTag`).
 
 float64 `add`: IEEE-754 addition is not associative; `squash_eq_sequential_combine` applies to it only
 under the associativity hypothesis (`…_float_add_partial`), and the harness exhibits real triples where
@@ -109,5 +116,367 @@ example : (algCombine addInt).squash [[.write 5, .write 7], [.write 1, .del, .wr
     (algCombine addInt).runF [.write 5, .write 7, .write 1, .del, .write 2, .write 3] (some 100) = some 5 := by decide
 
 example : (algSetSum addInt).squash [[.write (.sum 5)], [.write (.set 7), .write (.sum 1)], [.write (.sum 2)]] none = some 10 := by decide
+
+/-! ## Layer B: the byte-level model -/
+
+/-! ### B1/B2: per-key characterisation, for every value semantics `sem` -/
+
+/-- **B1** one iteration of `Flush`: under the flush invariant, the content of every key after the
+operation is `keyEffect` of its content before (`deletePrefix`: gone iff the prefix matches; another
+key's operation: unchanged; `set`: the value; `set_if_not_exists`: kept if present; the others: the value
+`sem` computes from the current content, which `getAt` at the operation's ordinal reads). -/
+theorem flushOp_per_key {cfg : Cfg} {sem : Sem} {f : Content} {s s' : Store} {b : Nat} {op : Op}
+    (h : FInv f s b) (hb : b ≤ op.ord) (hp : flushOp cfg sem s op = .ok s') (k : Bytes) :
+    keyEffect cfg sem k (look s.kv k) op = some (look s'.kv k) :=
+  flushOp_key h hb hp k
+
+/-- **B1** one flushed block: the content of a key is the fold of `keyEffect` over the stably sorted log. -/
+theorem flush_per_key {cfg : Cfg} {sem : Sem} {s s' : Store} (h : Clean s) (hp : flush cfg sem s = .ok s')
+    (k : Bytes) : foldOpt (keyEffect cfg sem k) (look s.kv k) (sortOps s.ops) = some (look s'.kv k) :=
+  flush_key h hp k
+
+/-- **B1** a list of blocks on one store (per block: Reset, the calls, `Flush`). -/
+theorem seq_per_key {cfg : Cfg} {sem : Sem} (blocks : List (List Op)) {s s' : Store}
+    (h : SInv s) (hr : seqRun cfg sem s blocks = .ok s') (k : Bytes) :
+    foldOpt (keyEffect cfg sem k) (look s.kv k) (blocks.flatMap sortOps) = some (look s'.kv k) :=
+  (seqRun_key blocks s s' h hr).2 k
+
+/-- **B2** a segment on a partial store: content = the same per-key fold; `deletedPrefixes` = exactly
+the prefixes of the segment's `deletePrefix` operations. -/
+theorem partial_per_key {cfg : Cfg} {sem : Sem} (blocks : List (List Op)) {p p' : Partial}
+    (h : SInv p.store) (hr : segRun cfg sem p blocks = .ok p') :
+    (∀ k, foldOpt (keyEffect cfg sem k) (look p.store.kv k) (blocks.flatMap sortOps) = some (look p'.store.kv k)) ∧
+    (∀ x, x ∈ p'.deletedPrefixes ↔
+      (x ∈ p.deletedPrefixes ∨ ∃ o ∈ blocks.flatMap sortOps, o.kind = .deletePrefix ∧ o.key = x)) :=
+  (segRun_key blocks p p' h hr).2
+
+/-- **B2** `mergeKey` reads only the full store's value of its key and writes only that key: it is
+`mergeGen` (a function of the two values) lifted to the store. -/
+theorem mergeKey_per_key (cfg : Cfg) (s : Store) (k v : Bytes) :
+    mergeKey cfg s k v = liftAct s k (mergeGen cfg (look s.kv k) v) :=
+  mergeKey_eq cfg s k v
+
+/-- **B2** `Merge` of a partial store with distinct keys into a full store at rest: for every key, the
+partial's deleted prefixes are applied first, then the key's two values are combined by `mergeLook`. -/
+theorem merge_per_key {cfg : Cfg} {sem : Sem} {g g' : Store} {p : Partial} (hg : Rest g)
+    (hp : NodupKeys p.store.kv) (hm : merge cfg sem g p = some (.ok g')) (k : Bytes) :
+    mergeLook cfg (if p.deletedPrefixes.any (fun pfx => isPrefix pfx k) then none else look g.kv k)
+      (look p.store.kv k) = some (look g'.kv k) :=
+  (merge_key hg hp hm).2 k
+
+/-- **B1 + B2** sequential run and squash of any cut, from the empty store, seen by one key: the first is
+the fold of `keyEffect` over all sorted logs, the second is `squashKey` (per segment: fold from
+"absent", the segment's prefix deletions, `mergeLook`).  Policy independent. -/
+theorem seq_and_squash_per_key {cfg : Cfg} {sem : Sem} {segs : List (List (List Op))} {F G : Store}
+    (hF : seqRun cfg sem Store.empty segs.flatten = .ok F)
+    (hG : squashRun cfg sem Store.empty segs = some G) (k : Bytes) :
+    foldOpt (keyEffect cfg sem k) none (segs.map (·.flatMap sortOps)).flatten = some (look F.kv k) ∧
+    squashKey cfg sem k none (segs.map (·.flatMap sortOps)) = some (look G.kv k) :=
+  seq_squash_key hF hG k
+
+/-- the general refinement theorem: whenever a policy's byte-level functions satisfy the three
+commutation laws of `Refine` against a per-key algebra `A`, sequential run and squash represent, for
+every key, the same typed value. -/
+theorem model_squash_eq_sequential_refine {cfg : Cfg} {sem : Sem} {F' P W : Type} {A : KeyAlg F' P W}
+    (R : Refine cfg sem A) (segs : List (List (List Op)))
+    (ha : ∀ seg ∈ segs, ∀ calls ∈ seg, ∀ op ∈ calls, op.kind = .deletePrefix ∨ R.okOp op)
+    {F G : Store} (hF : seqRun cfg sem Store.empty segs.flatten = .ok F)
+    (hG : squashRun cfg sem Store.empty segs = some G) (k : Bytes) :
+    ∃ f : Option F', ORel R.RF (look F.kv k) f ∧ ORel R.RF (look G.kv k) f :=
+  R.model_squash_eq_seq segs ha hF hG k
+
+/-- the calls of every block of every segment are `deletePrefix` or satisfy `P` -/
+def CallsAre (P : Op → Prop) (segs : List (List (List Op))) : Prop :=
+  ∀ seg ∈ segs, ∀ calls ∈ seg, ∀ op ∈ calls, op.kind = .deletePrefix ∨ P op
+
+/-! ### B3: the byte-exact policies -/
+
+/-- **`set`**, any `sem`: for every cut `segs` of the blocks into segments, if the sequential run and
+the squash both succeed, the two stores hold the same bytes for every key. -/
+theorem model_squash_eq_sequential_set (cfg : Cfg) (sem : Sem) (hpol : cfg.policy = .set)
+    (segs : List (List (List Op))) (hk : CallsAre (fun op => op.kind = .set) segs) {F G : Store}
+    (hF : seqRun cfg sem Store.empty segs.flatten = .ok F)
+    (hG : squashRun cfg sem Store.empty segs = some G) :
+    ∀ k, look F.kv k = look G.kv k := by
+  intro k
+  obtain ⟨f, h1, h2⟩ := (refSet cfg sem hpol).model_squash_eq_seq segs hk hF hG k
+  exact ORel_eq h1 h2
+
+/-- **`set_if_not_exists`**, any `sem`. -/
+theorem model_squash_eq_sequential_set_if_not_exists (cfg : Cfg) (sem : Sem) (hpol : cfg.policy = .setIfNotExists)
+    (segs : List (List (List Op))) (hk : CallsAre (fun op => op.kind = .setIfNotExists) segs) {F G : Store}
+    (hF : seqRun cfg sem Store.empty segs.flatten = .ok F)
+    (hG : squashRun cfg sem Store.empty segs = some G) :
+    ∀ k, look F.kv k = look G.kv k := by
+  intro k
+  obtain ⟨f, h1, h2⟩ := (refSine cfg sem hpol).model_squash_eq_seq segs hk hF hG k
+  exact ORel_eq h1 h2
+
+/-- **`append`** with the concrete semantics; "limits not hit" is the success of both runs (an append
+over `appendLimit` is an error of `Flush` resp. `Merge`; the size and item limits are errors of `set`). -/
+theorem model_squash_eq_sequential_append (cfg : Cfg) (hpol : cfg.policy = .append)
+    (segs : List (List (List Op))) (hk : CallsAre (fun op => op.kind = .append) segs) {F G : Store}
+    (hF : seqRun cfg (stdSem cfg) Store.empty segs.flatten = .ok F)
+    (hG : squashRun cfg (stdSem cfg) Store.empty segs = some G) :
+    ∀ k, look F.kv k = look G.kv k := by
+  intro k
+  obtain ⟨f, h1, h2⟩ := (refAppend cfg hpol).model_squash_eq_seq segs hk hF hG k
+  exact ORel_eq h1 h2
+
+/-! ### B4: the numeric policies over int64 and bigint -/
+
+/-- decimal text of a natural number parses back (strconv / math/big round trip) -/
+theorem codec_nat_roundtrip (n : Nat) : parseNat (renderNat n) = some n := parseNat_renderNat n
+
+/-- `big.Int.SetString(i.String()) = i` -/
+theorem codec_int_roundtrip (i : Int) : parseInt (renderInt i) = some i := parseInt_renderInt i
+
+/-- `strconv.ParseInt(strconv.FormatInt(i)) = i` for `i` in the int64 range -/
+theorem codec_int64_roundtrip (i : Int) (h : -two63 ≤ i ∧ i < two63) : parseInt64 (renderInt i) = some i :=
+  parseInt64_renderInt i h
+
+/-- the Combine instances used by the refinement are the ones of layer A -/
+theorem combine_instances :
+    combAdd64.op = addInt64.op ∧ combAddInt.op = addInt.op ∧ combMax.op = maxInt.op ∧ combMin.op = minInt.op :=
+  ⟨rfl, rfl, rfl, rfl⟩
+
+/-- **`add` over int64** (wrap-around arithmetic).  Operands are arbitrary bytes (`valueToInt64` reads a
+malformed operand as 0).  Every stored value is the canonical rendering of an int64, so the stores are
+byte-equal, hence equal as typed values (`parseInt64` of both sides). -/
+theorem model_squash_eq_sequential_add_int64 (cfg : Cfg) (hpol : cfg.policy = .add) (hvt : cfg.vt = .int64)
+    (segs : List (List (List Op))) (hk : CallsAre (fun op => op.kind = .sum .int64) segs) {F G : Store}
+    (hF : seqRun cfg (stdSem cfg) Store.empty segs.flatten = .ok F)
+    (hG : squashRun cfg (stdSem cfg) Store.empty segs = some G) :
+    ∀ k, look F.kv k = look G.kv k := by
+  intro k
+  obtain ⟨f, h1, h2⟩ := (refAddInt64 cfg hpol hvt).model_squash_eq_seq segs hk hF hG k
+  exact ORel_canon h1 h2
+
+/-- **`add` over bigint**. -/
+theorem model_squash_eq_sequential_add_bigint (cfg : Cfg) (hpol : cfg.policy = .add) (hvt : cfg.vt = .bigint)
+    (segs : List (List (List Op))) (hk : CallsAre (fun op => op.kind = .sum .bigint) segs) {F G : Store}
+    (hF : seqRun cfg (stdSem cfg) Store.empty segs.flatten = .ok F)
+    (hG : squashRun cfg (stdSem cfg) Store.empty segs = some G) :
+    ∀ k, look F.kv k = look G.kv k := by
+  intro k
+  obtain ⟨f, h1, h2⟩ := (refAddBigInt cfg hpol hvt).model_squash_eq_seq segs hk hF hG k
+  exact ORel_canon h1 h2
+
+/-- **`max` over int64**. -/
+theorem model_squash_eq_sequential_max_int64 (cfg : Cfg) (hpol : cfg.policy = .max) (hvt : cfg.vt = .int64)
+    (segs : List (List (List Op))) (hk : CallsAre (fun op => op.kind = .max .int64) segs) {F G : Store}
+    (hF : seqRun cfg (stdSem cfg) Store.empty segs.flatten = .ok F)
+    (hG : squashRun cfg (stdSem cfg) Store.empty segs = some G) :
+    ∀ k, look F.kv k = look G.kv k := by
+  intro k
+  obtain ⟨f, h1, h2⟩ := (refMaxInt64 cfg hpol hvt).model_squash_eq_seq segs hk hF hG k
+  exact ORel_canon h1 h2
+
+/-- **`min` over int64**. -/
+theorem model_squash_eq_sequential_min_int64 (cfg : Cfg) (hpol : cfg.policy = .min) (hvt : cfg.vt = .int64)
+    (segs : List (List (List Op))) (hk : CallsAre (fun op => op.kind = .min .int64) segs) {F G : Store}
+    (hF : seqRun cfg (stdSem cfg) Store.empty segs.flatten = .ok F)
+    (hG : squashRun cfg (stdSem cfg) Store.empty segs = some G) :
+    ∀ k, look F.kv k = look G.kv k := by
+  intro k
+  obtain ⟨f, h1, h2⟩ := (refMinInt64 cfg hpol hvt).model_squash_eq_seq segs hk hF hG k
+  exact ORel_canon h1 h2
+
+/-- **`max` over bigint**. -/
+theorem model_squash_eq_sequential_max_bigint (cfg : Cfg) (hpol : cfg.policy = .max) (hvt : cfg.vt = .bigint)
+    (segs : List (List (List Op))) (hk : CallsAre (fun op => op.kind = .max .bigint) segs) {F G : Store}
+    (hF : seqRun cfg (stdSem cfg) Store.empty segs.flatten = .ok F)
+    (hG : squashRun cfg (stdSem cfg) Store.empty segs = some G) :
+    ∀ k, look F.kv k = look G.kv k := by
+  intro k
+  obtain ⟨f, h1, h2⟩ := (refMaxBigInt cfg hpol hvt).model_squash_eq_seq segs hk hF hG k
+  exact ORel_canon h1 h2
+
+/-- **`min` over bigint** (store_min.go takes the new value on a tie, merge.go keeps the old one: the same
+number either way). -/
+theorem model_squash_eq_sequential_min_bigint (cfg : Cfg) (hpol : cfg.policy = .min) (hvt : cfg.vt = .bigint)
+    (segs : List (List (List Op))) (hk : CallsAre (fun op => op.kind = .min .bigint) segs) {F G : Store}
+    (hF : seqRun cfg (stdSem cfg) Store.empty segs.flatten = .ok F)
+    (hG : squashRun cfg (stdSem cfg) Store.empty segs = some G) :
+    ∀ k, look F.kv k = look G.kv k := by
+  intro k
+  obtain ⟨f, h1, h2⟩ := (refMinBigInt cfg hpol hvt).model_squash_eq_seq segs hk hF hG k
+  exact ORel_canon h1 h2
+
+/-- a `set_sum` operand as the host interface (wasm/call.go `DoSetSum…`) produces it: `"sum:"` or
+`"set:"` followed by the canonical text of the number -/
+def SetSumOperand (ok : Int → Prop) (v : Bytes) : Prop :=
+  ∃ i, ok i ∧ (v = pfxSum ++ renderInt i ∨ v = pfxSet ++ renderInt i)
+
+/-- **`set_sum` over int64**: the typed values (tag stripped, as the exported readers return them) agree.
+The tags themselves may differ: a merged store always holds `sum:`, the sequential one keeps the tag of the
+key's first write. -/
+theorem model_squash_eq_sequential_set_sum_int64 (cfg : Cfg) (hpol : cfg.policy = .setSum) (hvt : cfg.vt = .int64)
+    (segs : List (List (List Op)))
+    (hk : CallsAre (fun op => op.kind = .setSum .int64 ∧ SetSumOperand InRange64 op.val) segs) {F G : Store}
+    (hF : seqRun cfg (stdSem cfg) Store.empty segs.flatten = .ok F)
+    (hG : squashRun cfg (stdSem cfg) Store.empty segs = some G) :
+    ∀ k, stripTag cfg (look F.kv k) = stripTag cfg (look G.kv k) := by
+  intro k
+  obtain ⟨f, h1, h2⟩ := (refSetSumInt64 cfg hpol hvt).model_squash_eq_seq segs hk hF hG k
+  exact ORel_tagged hpol h1 h2
+
+/-- **`set_sum` over bigint**. -/
+theorem model_squash_eq_sequential_set_sum_bigint (cfg : Cfg) (hpol : cfg.policy = .setSum) (hvt : cfg.vt = .bigint)
+    (segs : List (List (List Op)))
+    (hk : CallsAre (fun op => op.kind = .setSum .bigint ∧ SetSumOperand (fun _ => True) op.val) segs) {F G : Store}
+    (hF : seqRun cfg (stdSem cfg) Store.empty segs.flatten = .ok F)
+    (hG : squashRun cfg (stdSem cfg) Store.empty segs = some G) :
+    ∀ k, stripTag cfg (look F.kv k) = stripTag cfg (look G.kv k) := by
+  intro k
+  obtain ⟨f, h1, h2⟩ := (refSetSumBigInt cfg hpol hvt).model_squash_eq_seq segs hk hF hG k
+  exact ORel_tagged hpol h1 h2
+
+/-! ### B4: `add`, `min`, `max` over bigdecimal -/
+
+/-- `decimal.NewFromString(d.String())` succeeds and is `d` with trailing zeros of the coefficient
+removed (same number, scale not larger): the codec fact behind the bigdecimal theorems — proved, not
+assumed. -/
+theorem codec_dec_roundtrip (d : Dec) : ∃ d' : Dec, Dec.parse d.render = some d' ∧ d'.scale ≤ d.scale ∧
+    d.coef = d'.coef * (10 : Int) ^ (d.scale - d'.scale) :=
+  Dec.parse_render d
+
+/-- the operands the host interface hands to the store for bigdecimal `add`/`min`/`max` (`hostOp`:
+parsed, truncated to 34 decimals, re-rendered) parse and have at most 34 decimals. -/
+theorem host_bigdecimal_operand {op op' : Op}
+    (hk : op.kind = .sum .bigdecimal ∨ op.kind = .max .bigdecimal ∨ op.kind = .min .bigdecimal)
+    (h : hostOp op = some op') : op'.kind = op.kind ∧ DecOperand op'.val :=
+  hostOp_decOperand hk h
+
+/-- **`add` over bigdecimal**, operands with at most 34 decimals (`DecOperand`, see
+`host_bigdecimal_operand`).  Every stored text then reads as a decimal with at most 34 decimals, merge's
+`Truncate(34)` is the identity, and the two stores agree on which keys exist and on every key's typed
+value `typedDec34` (the number × 10^34, an integer).  (The texts are equal too whenever `String()` is
+canonical; the typed statement does not need that.) -/
+theorem model_squash_eq_sequential_add_bigdecimal (cfg : Cfg) (hpol : cfg.policy = .add) (hvt : cfg.vt = .bigdecimal)
+    (segs : List (List (List Op)))
+    (hk : CallsAre (fun op => op.kind = .sum .bigdecimal ∧ DecOperand op.val) segs) {F G : Store}
+    (hF : seqRun cfg (stdSem cfg) Store.empty segs.flatten = .ok F)
+    (hG : squashRun cfg (stdSem cfg) Store.empty segs = some G) :
+    ∀ k, (look F.kv k).isSome = (look G.kv k).isSome ∧
+      (look F.kv k).bind typedDec34 = (look G.kv k).bind typedDec34 := by
+  intro k
+  obtain ⟨f, h1, h2⟩ := (refAddDec cfg hpol hvt).model_squash_eq_seq segs hk hF hG k
+  exact typed_eq_of_repDec h1 h2
+
+/-- **`max` over bigdecimal**. -/
+theorem model_squash_eq_sequential_max_bigdecimal (cfg : Cfg) (hpol : cfg.policy = .max) (hvt : cfg.vt = .bigdecimal)
+    (segs : List (List (List Op)))
+    (hk : CallsAre (fun op => op.kind = .max .bigdecimal ∧ DecOperand op.val) segs) {F G : Store}
+    (hF : seqRun cfg (stdSem cfg) Store.empty segs.flatten = .ok F)
+    (hG : squashRun cfg (stdSem cfg) Store.empty segs = some G) :
+    ∀ k, (look F.kv k).isSome = (look G.kv k).isSome ∧
+      (look F.kv k).bind typedDec34 = (look G.kv k).bind typedDec34 := by
+  intro k
+  obtain ⟨f, h1, h2⟩ := (refMaxDec cfg hpol hvt).model_squash_eq_seq segs hk hF hG k
+  exact typed_eq_of_repDec h1 h2
+
+/-- **`min` over bigdecimal**. -/
+theorem model_squash_eq_sequential_min_bigdecimal (cfg : Cfg) (hpol : cfg.policy = .min) (hvt : cfg.vt = .bigdecimal)
+    (segs : List (List (List Op)))
+    (hk : CallsAre (fun op => op.kind = .min .bigdecimal ∧ DecOperand op.val) segs) {F G : Store}
+    (hF : seqRun cfg (stdSem cfg) Store.empty segs.flatten = .ok F)
+    (hG : squashRun cfg (stdSem cfg) Store.empty segs = some G) :
+    ∀ k, (look F.kv k).isSome = (look G.kv k).isSome ∧
+      (look F.kv k).bind typedDec34 = (look G.kv k).bind typedDec34 := by
+  intro k
+  obtain ⟨f, h1, h2⟩ := (refMinDec cfg hpol hvt).model_squash_eq_seq segs hk hF hG k
+  exact typed_eq_of_repDec h1 h2
+
+/-! ### Non-vacuity of layer B: concrete histories on which both runs succeed -/
+
+def exCfg (p : Policy) (vt : VT) : Cfg := ⟨p, vt, 0, 1000000, 1000000⟩
+def kA : Bytes := [97, 49]   -- "a1"
+def kB : Bytes := [98]       -- "b"
+def pfxA : Bytes := [97]     -- "a"
+
+/-- three segments (2 + 2 + 1 blocks); out-of-order ordinals inside a block; a `deletePrefix` in the
+second segment that hits `a1` but not `b` -/
+def exSegs (kind : OpKind) (v : Int → Bytes) : List (List (List Op)) :=
+  [ [ [⟨kind, 1, kA, v 5⟩, ⟨kind, 2, kB, v 7⟩], [⟨kind, 1, kA, v 100⟩] ],
+    [ [⟨kind, 2, kA, v 1⟩, ⟨.deletePrefix, 1, pfxA, []⟩, ⟨kind, 3, kB, v (-9)⟩], [⟨kind, 1, kA, v 2⟩] ],
+    [ [⟨kind, 1, kA, v 3⟩] ] ]
+
+/-- both runs succeed and hold `a` for `a1` and `b` for `b` -/
+def exBoth (cfg : Cfg) (segs : List (List (List Op))) (a b : Option Bytes) : Bool :=
+  match seqRun cfg (stdSem cfg) Store.empty segs.flatten, squashRun cfg (stdSem cfg) Store.empty segs with
+  | .ok F, some G => look F.kv kA == a && look G.kv kA == a && look F.kv kB == b && look G.kv kB == b
+  | _, _ => false
+
+example : exBoth (exCfg .add .int64) (exSegs (.sum .int64) renderInt) (some (renderInt 6)) (some (renderInt (-2))) = true := by
+  decide
+example : CallsAre (fun op => op.kind = .sum .int64) (exSegs (.sum .int64) renderInt) := by
+  simp [CallsAre, exSegs]
+example : exBoth (exCfg .max .bigint) (exSegs (.max .bigint) renderInt) (some (renderInt 3)) (some (renderInt 7)) = true := by
+  decide
+example : exBoth (exCfg .min .int64) (exSegs (.min .int64) renderInt) (some (renderInt 1)) (some (renderInt (-9))) = true := by
+  decide
+example : exBoth (exCfg .set .bytes) (exSegs .set renderInt) (some (renderInt 3)) (some (renderInt (-9))) = true := by
+  decide
+example : exBoth (exCfg .setIfNotExists .bytes) (exSegs .setIfNotExists renderInt) (some (renderInt 1)) (some (renderInt 7)) = true := by
+  decide
+example : exBoth (exCfg .append .bytes) (exSegs .append renderInt)
+    (some (renderInt 1 ++ renderInt 2 ++ renderInt 3)) (some (renderInt 7 ++ renderInt (-9))) = true := by
+  decide
+/-- bigdecimal: operands i/10 (`"0.5"`, `"10"`, `"-0.9"`, …); `a1` ends at 0.1 + 0.2 + 0.3, `b` at 0.7 − 0.9 -/
+example : exBoth (exCfg .add .bigdecimal) (exSegs (.sum .bigdecimal) (fun i => Dec.render ⟨i, 1⟩))
+    (some (Dec.render ⟨6, 1⟩)) (some (Dec.render ⟨-2, 1⟩)) = true := by
+  decide
+example : exBoth (exCfg .min .bigdecimal) (exSegs (.min .bigdecimal) (fun i => Dec.render ⟨i, 1⟩))
+    (some (Dec.render ⟨1, 1⟩)) (some (Dec.render ⟨-9, 1⟩)) = true := by
+  decide
+example : CallsAre (fun op => op.kind = .sum .bigdecimal ∧ DecOperand op.val)
+    (exSegs (.sum .bigdecimal) (fun i => Dec.render ⟨i, 1⟩)) := by
+  have hv : ∀ i : Int, DecOperand (Dec.render ⟨i, 1⟩) := by
+    intro i
+    obtain ⟨d', h1, h2, _⟩ := Dec.parse_render ⟨i, 1⟩
+    exact ⟨d', h1, by simp only at h2; omega⟩
+  intro seg hseg calls hcalls op hop
+  simp only [exSegs, List.mem_cons, List.not_mem_nil, or_false] at hseg
+  rcases hseg with rfl | rfl | rfl <;>
+    simp only [List.mem_cons, List.not_mem_nil, or_false] at hcalls <;>
+    rcases hcalls with rfl | rfl <;>
+    simp only [List.mem_cons, List.not_mem_nil, or_false] at hop <;>
+    (try rcases hop with rfl | rfl | rfl) <;> (try rcases hop with rfl | rfl) <;> (try subst hop) <;>
+    first
+      | exact Or.inl rfl
+      | (refine Or.inr ⟨rfl, ?_⟩; dsimp only; exact hv _)
+
+/-- `set_sum` operands: `set:2`, all others `sum:i` -/
+def exSSVal (i : Int) : Bytes := (if i = 2 then pfxSet else pfxSum) ++ renderInt i
+
+/-- `set_sum`: a `set:` in the middle segment; the sequential store keeps the tag `set:`, the squashed one
+holds `sum:`, the typed values agree -/
+example :
+    (match seqRun (exCfg .setSum .int64) (stdSem (exCfg .setSum .int64)) Store.empty (exSegs (.setSum .int64) exSSVal).flatten,
+           squashRun (exCfg .setSum .int64) (stdSem (exCfg .setSum .int64)) Store.empty (exSegs (.setSum .int64) exSSVal) with
+     | .ok F, some G => look F.kv kA == some (pfxSet ++ renderInt 5) && look G.kv kA == some (pfxSum ++ renderInt 5)
+     | _, _ => false) = true := by
+  decide
+
+example : CallsAre (fun op => op.kind = .setSum .int64 ∧ SetSumOperand InRange64 op.val)
+    (exSegs (.setSum .int64) exSSVal) := by
+  have hv : ∀ i : Int, -100 ≤ i ∧ i ≤ 100 → SetSumOperand InRange64 (exSSVal i) := by
+    intro i hi
+    refine ⟨i, by unfold InRange64 two63; omega, ?_⟩
+    unfold exSSVal
+    split
+    · exact Or.inr rfl
+    · exact Or.inl rfl
+  intro seg hseg calls hcalls op hop
+  simp only [exSegs, List.mem_cons, List.not_mem_nil, or_false] at hseg
+  rcases hseg with rfl | rfl | rfl <;>
+    simp only [List.mem_cons, List.not_mem_nil, or_false] at hcalls <;>
+    rcases hcalls with rfl | rfl <;>
+    simp only [List.mem_cons, List.not_mem_nil, or_false] at hop <;>
+    (try rcases hop with rfl | rfl | rfl) <;> (try rcases hop with rfl | rfl) <;> (try subst hop) <;>
+    first
+      | exact Or.inl rfl
+      | exact Or.inr ⟨rfl, hv _ (by omega)⟩
 
 end SV.C02
